@@ -136,6 +136,49 @@ func c19checkSelect(s c19sel, vec []int) []ev.Finding {
 	if out := c19privs(s, stmt, s.text, "", cs); out != nil {
 		return out
 	}
+	// asked again after the statement was edited in place (every named database renamed), and asked of a clone that was
+	// edited: the answer describes the statement as it is now
+	for _, viaClone := range []bool{false, true} {
+		st2, err := influxql.ParseStatement(s.text)
+		if err != nil {
+			break
+		}
+		if _, err := st2.RequiredPrivileges(); err != nil {
+			break
+		}
+		target := st2
+		if viaClone {
+			switch x := st2.(type) {
+			case *influxql.SelectStatement:
+				target = x.Clone()
+			default:
+				continue
+			}
+		}
+		influxql.WalkFunc(target, func(n influxql.Node) {
+			if m, ok := n.(*influxql.Measurement); ok && m.Database != "" {
+				m.Database += "_r"
+			}
+		})
+		s2 := s
+		s2.reads = nil
+		for _, d := range s.reads {
+			if d != "" {
+				d += "_r"
+			}
+			s2.reads = append(s2.reads, d)
+		}
+		if s2.write != "" {
+			s2.write += "_r"
+		}
+		suffix := ":after-in-place-rename"
+		if viaClone {
+			suffix = ":clone-after-rename"
+		}
+		if out := c19privs(s2, target, s.text, suffix, cs); out != nil {
+			return out
+		}
+	}
 	// the same statement as the second and third one read by a single parser: what the privileges are computed from
 	// must not depend on what the parser read before
 	qt := s.text + ";" + s.text + ";" + s.text
